@@ -171,7 +171,9 @@ pub fn generate(seed: u64, n: usize, _tier: &str, emit: &mut dyn FnMut(String)) 
     while count < n && idx < n * 3 + 10 {
         let mut r = Rng::for_case(seed, "tc", idx);
         idx += 1;
-        let (cfg, prog) = if r.chance(3, 4) {
+        let (cfg, prog) = if r.chance(1, 6) {
+            ("30000000,10,50,250,394,1".to_string(), crate::fam::idiom::self_ref_program(&mut r))
+        } else if r.chance(3, 4) {
             ("30000000,10,50,250,394,1".to_string(), pipeline::gen_idiom_program(&mut r))
         } else {
             let f = r.below(4);
